@@ -254,7 +254,7 @@ def run_check(pid, tier, seed, nproc=None, only=None):
         body = jsonable({"property": pid, "key": v["key"], "case": v["case"], "detail": v["detail"],
                          "tier": tier, "seed": seed})
         sha = hashlib.sha256(json.dumps(body["key"], sort_keys=True).encode()).hexdigest()[:12]
-        d = os.path.join(VERIF, "replays", pid)
+        d = os.path.join(os.environ.get("VT_REPLAY_DIR", os.path.join(VERIF, "replays")), pid)
         os.makedirs(d, exist_ok=True)
         path = os.path.join(d, sha + ".json")
         with open(path, "w") as fh:
@@ -292,8 +292,9 @@ def run_check(pid, tier, seed, nproc=None, only=None):
         "wall_s": round(wall, 3),
         "violations": len(seen_keys),
     }
-    os.makedirs(os.path.join(VERIF, "evidence"), exist_ok=True)
-    evp = os.path.join(VERIF, "evidence", pid + ".json")
+    evdir = os.environ.get("VT_EVIDENCE_DIR", os.path.join(VERIF, "evidence"))
+    os.makedirs(evdir, exist_ok=True)
+    evp = os.path.join(evdir, pid + ".json")
     with open(evp, "w") as fh:
         json.dump(ev, fh, indent=1, sort_keys=True)
     ok_schema = validate_evidence(evp)
